@@ -35,9 +35,7 @@ def justify : PanicSite → Justification
   | .definitions_device_engagement__from__unwrap_5e2ae9 => ownOutput "security.1 is a Tag24<CoseKey> already holding its encoded bytes: serialisation emits tag 24 + bstr"
   | .definitions_helpers_non_empty_vec__into__unwrap_d3bc36 => ownOutput "element-wise map of a NonEmptyVec keeps its length >= 1"
   | .definitions_helpers_non_empty_vec__try_into__unwrap_09cd47 => ownOutput "element-wise try-map of a NonEmptyVec keeps its length >= 1 (the `?` before it returns on any element error)"
-  | .definitions_namespaces_org_iso_18013_5_1_tdate__from_json__unwrap_0665b6 => localApi "JSON record of the issuing application (C19)"
-  | .definitions_namespaces_org_iso_18013_5_1_tdate__from_json__unwrap_0665b6_2 => localApi "JSON record of the issuing application (C19)"
-  | .definitions_namespaces_org_iso_18013_5_1_tdate__from_json__to_offset_557016 => localApi "JSON record of the issuing application (C19)"
+  | .definitions_namespaces_org_iso_18013_5_1_tdate__from_json__unwrap_0665b6 => constantOperand "replace_millisecond(0): 0 is always a valid millisecond"
   | .definitions_session__get_shared_secret__unwrap_1643e7 => guarded "`if public_key_opt.is_none().into() { return Err }` immediately before"
   | .definitions_session__derive_session_key__unwrap_e905f1 => constantOperand "HKDF-SHA-256 expand into a 32-byte buffer: 32 <= 255*32"
   | .definitions_session__derive_session_key__unwrap_34fefa => constantOperand "HKDF-SHA-256 expand into a 32-byte buffer: 32 <= 255*32"
